@@ -1008,6 +1008,12 @@ mutant('H4-incoming-transfer-not-always-undone', ['C13'], [
 mutant('H4-delegated-debit-recorded-only-sometimes', ['C13'], [
     ('src/delegated_safety/reserve.rs', "            if is_delegated {", "            if is_delegated && std::hint::black_box(true) {"),
 ], ['|H4|'])
+mutant('BU-prepared-account-installed-only-sometimes', ['C10'], [
+    ('src/bundle.rs', "            if let Some(account) = account {", "            if let Some(account) = account && std::hint::black_box(true) {"),
+], ['|BU|'])
+mutant('BU-revert-dropped', ['C10'], [
+    ('src/bundle.rs', "                if let Some(revert) = account.revert {\n                    reverts.push((account.address, revert));\n                }", "                let _ = account.revert;"),
+], ['|BU|'])
 mutant('LC5-validate-stale-test-inverted', ['C05'], [(S, """        if tx_state.incarnation != incarnation {
             self.abort(AbortReason::ParallelError {
                 txid,
